@@ -339,7 +339,7 @@ func init() {
 		}
 		n := 8
 		if !c.Quick() {
-			n = 300
+			n = 60
 		}
 		for i := 0; i < n; i++ {
 			cs := &c15Case{Procs: []int{1, 2, 4, 16}[i%4], Initial: [][]world.File{c15Tree(r), c15Tree(r)}}
